@@ -22,9 +22,10 @@ func init() {
 }
 
 const (
-	c09Swamp   = "app/core/hydra/swamp/swamp.go"
-	c09Patch   = "app/core/hydra/swamp/swamp_patch.go"
-	c09Gateway = "app/server/gateway/gateway.go"
+	c09Swamp        = "app/core/hydra/swamp/swamp.go"
+	c09Patch        = "app/core/hydra/swamp/swamp_patch.go"
+	c09PatchExpired = "app/core/hydra/swamp/swamp_patch_expired.go"
+	c09Gateway      = "app/server/gateway/gateway.go"
 )
 
 var c09Increments = []string{"IncrementUint8", "IncrementUint16", "IncrementUint32", "IncrementUint64", "IncrementInt8",
@@ -219,6 +220,11 @@ func c09Recheck(fs *Facts, f *File) {
 			viaLock := len(gw.CallsSuffix(fn, ".LockTreasure")) > 0 || strings.Contains(gw.Str(fn), ".LockTreasure\n") || strings.Contains(gw.Str(fn), ".LockTreasure")
 			viaExisting := strings.Contains(gw.Str(fn), ".LockExistingTreasure")
 			good := !direct && (viaLock || viaExisting) && (!viaLock || okLock) && (!viaExisting || okExisting)
+			// a body that lets its guard go and then deletes the key unconditionally acts on what it saw under the
+			// guard it no longer holds (audit7 D6: Uint32SliceDelete + DeleteTreasure lost an acknowledged push)
+			if len(gw.CallsSuffix(fn, ".DeleteTreasure")) > 0 {
+				good = false
+			}
 			if good {
 				gwYes++
 			} else {
@@ -460,6 +466,13 @@ func c09Shape(fs *Facts, sw *File) {
 	items = append(items, item{sw, c09Swamp, "swamp", ccDeleteHandlerName(sw)}, item{sw, c09Swamp, "swamp", "CloneAndDeleteTreasuresByKeys"})
 	if pf, err := Load(c09Patch); err == nil {
 		items = append(items, item{pf, c09Patch, "swamp", "PatchFields"})
+		// the per-record body of PatchExpired answers with the expiration time of the record (audit7 D7)
+		if pe, err := Load(c09PatchExpired); err == nil && pe.Func("swamp", "applyPatchExpiredOne") != nil {
+			items = append(items, item{pe, c09PatchExpired, "swamp", "applyPatchExpiredOne"})
+		} else {
+			fs.Enum("bodyShape", "unknown", c09PatchExpired)
+			return
+		}
 	} else {
 		fs.Enum("bodyShape", "unknown", c09Patch)
 		return
@@ -647,6 +660,28 @@ func c09LockHelperOK(f *File, fn *ast.FuncDecl) bool {
 	return loop && cmp
 }
 
+// ccDelegate resolves one level of delegation: for `func (s *T) A(...) R { return s.B(...) }` it answers B's declaration,
+// otherwise fn itself.
+func ccDelegate(f *File, fn *ast.FuncDecl, recv string) *ast.FuncDecl {
+	if fn == nil || fn.Body == nil || len(fn.Body.List) != 1 {
+		return fn
+	}
+	ret, ok := fn.Body.List[0].(*ast.ReturnStmt)
+	if !ok || len(ret.Results) != 1 {
+		return fn
+	}
+	call, ok := ret.Results[0].(*ast.CallExpr)
+	if !ok {
+		return fn
+	}
+	if sel, ok := call.Fun.(*ast.SelectorExpr); ok && f.Str(sel.X) == "s" {
+		if inner := f.Func(recv, sel.Sel.Name); inner != nil {
+			return inner
+		}
+	}
+	return fn
+}
+
 // c09DeletePaths decides shiftByKeysOneSession and deleteTrustsHandlerResult.
 func c09DeletePaths(fs *Facts, f *File) {
 	// ShiftByKeys: no guard session of its own around a Clone; what it hands out is deleteHandlerIf's second result
@@ -670,6 +705,7 @@ func c09DeletePaths(fs *Facts, f *File) {
 	if fn := f.Func("swamp", "DeleteTreasure"); fn == nil {
 		fs.Tri("deleteTrustsHandlerResult", Unknown, c09Swamp)
 	} else {
+		fn = ccDelegate(f, fn, "swamp")
 		w := c09Swamp + ":" + itoa(f.Line(fn))
 		calls := append(f.Calls(fn, "s.deleteHandler"), f.Calls(fn, "s.deleteHandlerIf")...)
 		if len(calls) != 1 {
